@@ -162,6 +162,17 @@ def run_cluster(case):
             cells.append(s.name[0] + str(inc))
         return " ".join(cells)
 
+    def report(node):
+        """every public summary of the node's view: stats counters, the three member lists (member
+        table order), the counts shown by repr"""
+        import re as _re
+        stt = node.stats
+        lst = lambda names: ",".join(str(idx(x)) for x in names) or "-"
+        m = _re.search(r"alive=(-?\d+), suspect=(-?\d+), dead=(-?\d+)", repr(node))
+        rc = m.groups() if m else ("?", "?", "?")
+        return (f"{stt.alive_count} {stt.suspect_count} {stt.dead_count} {lst(node.alive_members)} "
+                f"{lst(node.suspected_members)} {lst(node.dead_members)} {rc[0]} {rc[1]} {rc[2]}")
+
     def upds(meta):
         us = meta.get("updates") or []
         if not us:
@@ -201,12 +212,14 @@ def run_cluster(case):
             if echo[0] == "D":
                 out.append(f"to {a}")
             out.append(f"r {a} {row(self)}")
+            out.append(f"s {a} {report(self)}")
             for other in nodes:
                 if other is not self:
                     r = row(other)
                     if r != rows[other.idx]:
                         rows[other.idx] = r
                         out.append(f"r {other.idx} {r}")
+                        out.append(f"s {other.idx} {report(other)}")
             rows[a] = row(self)
             evs = res if isinstance(res, list) else ([] if res is None else [res])
             for e in evs:
@@ -338,6 +351,7 @@ def run_cluster(case):
         M.random = old_random
     for nd in nodes:
         out.append(f"F r {nd.idx} {row(nd)}")
+        out.append(f"F s {nd.idx} {report(nd)}")
     return out, sched
 
 
@@ -691,6 +705,9 @@ class C13(core.Property):
         "window is not empty (bootstrap interval > 0 or a positive gap between consecutive heartbeats, max_sample_size >= 1), a "
         "sample taken m + 39*max(m, min_std) after the last heartbeat (m = largest interval ever recorded, min_std = 0.1 s) "
         "must have reached the threshold (thresholds up to 300)",
+        "'reporting a member ALIVE' covers every public report of a node: after every delivered event the counters of `stats`, "
+        "the lists alive_members / suspected_members / dead_members and the counts shown by repr() are logged (`s` lines) next to "
+        "the get_member_state row and must agree with it (Spec.reportOk, signature membership/report/stats-disagree-with-member-states)",
         "any permutation is a legal result of random.shuffle: the case may fix a policy for the oracle (favoured members last / "
         "first / alternating per node, ascending, descending) instead of drawing uniformly from the case seed",
         "adaptive phi sampling is confined to the part of a silence in which the tail probability is a normal double "
@@ -1292,6 +1309,9 @@ THEOREMS = [
     "HappyModel.C13.failure_detected_partial",
     "HappyModel.C13.failure_detected_by_phi_partial",
     "HappyModel.C13.failure_detected_by_phi",
+    "HappyModel.C13.report_agrees_with_states",
+    "HappyModel.C13.report_lists_exact",
+    "HappyModel.C13.failure_detected_report",
     "HappyModel.C13.tickDueRun_of_punctual",
     "HappyModel.C13.overdue_nil_dueOk",
     "HappyModel.C13.crash_yields_quiet_run",
